@@ -130,7 +130,11 @@ def staged (p : Program) : String :=
   | some false =>
     match checkAll cfg p with
     | .exhausted => "crash"
-    | .err i c _ => s!"check {i} {fnName c}"
+    | .err i _ _ =>
+      let fns := match p.files[i]? with
+        | some f => ([CheckFn.globals, .enums, .structLikes, .unions, .functions].filter fun c => (runCheck cfg c f).isSome).map fnName
+        | none => []
+      s!"check {i} {",".intercalate fns}"
     | .ok =>
       match resolveAll cfg p with
       | .crash => "crash"
